@@ -20,8 +20,8 @@ CLAIMED = {
             "the factory returns a fresh empty value of the tagged type for each implemented code and panics otherwise; WriteValue/ReadValue unfolded per dynamic type (tag harnesses); lists and both map types with loop invariants: "
             "same length, same keys in the same order, elements pairwise equal (valeq) — nesting to any depth by structural induction over the composite value token.",
             "DESIGN.md §4 C02",
-            BASE_NOTE + " Token view of io assumed (abstraction of the byte-level contracts of C01). Trusted model of hmap.StringKeyLinkedMap/IntKeyLinkedMap (Put/Get/Keys/enumerators as an insertion-ordered dictionary, max == 0) "
-            "until C09 replaces it; valeq is an uninterpreted equivalence; the induction over value trees is a meta-argument. Byte layouts are pinned by C01, at value level the frozen harnesses are the reference encoder.",
+            BASE_NOTE + " Token view of io assumed (abstraction of the byte-level contracts of C01). The insertion-ordered-dictionary model of hmap.StringKeyLinkedMap/IntKeyLinkedMap used here (namespace hmapv) is no longer merely trusted: every clause of it is proved to follow from C09's verified contracts under an explicit abstraction mapping (util/hmap/zz_model_verif.go, 55 harnesses); "
+            "what remains assumed about it: max == 0 (no eviction), that clients only hold maps satisfying the representation invariant, and the frame of Put/Remove with respect to OTHER maps; valeq is an uninterpreted equivalence; the induction over value trees is a meta-argument. Byte layouts are pinned by C01, at value level the frozen harnesses are the reference encoder.",
             TECH),
     "C03": ("proof",
             "Factory: for EVERY 16-bit code CreatePack returns nil exactly for unregistered codes and otherwise a fresh pack of the one registered concrete type whose GetPackType() is that code; every registered type's own tag selects its own type. "
